@@ -845,6 +845,13 @@ class FuncContent:
                 self.tokenizer,
             )
 
+        if token_1.token_type not in (TokenType.KEYWORD, TokenType.OPERATOR):
+            raise MinecraftSyntaxWarning(
+                "Expected <integer>..<integer> after 'matches'",
+                token_1,
+                self.tokenizer,
+            )
+
         token_2 = _get_token(key_pos + 2)
         token_3 = _get_token(key_pos + 3)
         token_4 = _get_token(key_pos + 4)
